@@ -688,7 +688,7 @@ type raceCase struct {
 }
 
 func runRace(c raceCase, verbose bool) {
-	sec := res.Section("race", "system-correspondence", "two concurrent GetOrCreate calls: cached idle id (free-running goroutines: exactly one is served, the other refused), the same uncached id with both calls parked between the two locked sections by the factory gate (lookup1, lookup2, create1, create2, insert1, insert2, release1, release2 — finding F16), the control with two distinct uncached ids, and a request naming a cached id while the previous request's Release is still committing (iterator Get parked): refused; outcomes and ring dumps vs the model's split steps")
+	sec := res.Section("race", "system-correspondence", "two concurrent GetOrCreate calls: cached idle id (free-running goroutines: exactly one is served, the other refused), the same uncached id with both calls parked between the two locked sections by the factory gate (lookup1, lookup2, create1, create2, insert1, insert2, release1, release2 — finding F16), the control with two distinct uncached ids, a request naming a cached id while the previous request's Release is still committing (iterator Get parked): refused, and a refused request that carries another position while the cursor is in use: the request in flight continues from its own position; outcomes and ring dumps vs the model's split steps")
 	f := NewFact()
 	p, pv := cursor.NewProviderVerif(f, 100, 60*time.Second, 300*time.Second)
 	names := map[cursor.Cursor]string{}
@@ -865,6 +865,63 @@ func runRace(c raceCase, verbose bool) {
 			acq, rel := f.Net(n)
 			r.steps = append(r.steps, stepRec{desc: fmt.Sprintf("closed j%d", n), lines: []string{fmt.Sprintf("closed %d", n)}, impl: []string{fmt.Sprintf("%d %d", acq, rel)}})
 		}
+	case "refused-other-position":
+		// request A uses the cached cursor (position PA); request B names the same id with ANOTHER well-formed position and
+		// is refused; A then goes on: it must continue from ITS position — a refused request must leave no trace. Sequential
+		// and deterministic: "A is in flight" simply means that A has not released the cursor yet.
+		a, err := p.GetOrCreate(ctx, cursor.State{Query: queries[0]}, true)
+		if err != nil {
+			res.Fatal(args.Out, "race: %v", err)
+		}
+		names[a] = "j1"
+		add("get", fmt.Sprintf("get 0 0 0 0 ok 1 1 %d", a.Id()), "new 1")
+		st := p.Release(ctx, a)
+		add("release", "release 1", "idle")
+		posA := "j1=" + journal.Pos{CId: 7, Idx: 3}.String()
+		posB := "j1=" + journal.Pos{CId: 7, Idx: 9}.String()
+		a2, err := p.GetOrCreate(ctx, cursor.State{Id: st.Id, Query: queries[0], Pos: posA}, true)
+		outA := "refused"
+		if err == nil {
+			outA = "other"
+			if a2 == a {
+				outA = "hit 1"
+			}
+		}
+		add("lookup (request A, position PA)", fmt.Sprintf("lookup %d 0 3 1", st.Id), outA+fmt.Sprintf(" id=%d", st.Id))
+		if a2 != a {
+			fail("interleaved", "the request naming the idle cached cursor did not get it", outA, "hit")
+			break
+		}
+		if got := a2.State(ctx).Pos; got != posA {
+			fail("position", "the cached cursor does not stand at the position the request supplied", got, posA)
+		}
+		b, errB := p.GetOrCreate(ctx, cursor.State{Id: st.Id, Query: queries[0], Pos: posB}, true)
+		outB := "refused"
+		if errB == nil {
+			outB = "served"
+		}
+		add("lookup (request B, other position, while A is in flight)", fmt.Sprintf("lookup %d 0 4 1", st.Id), outB+fmt.Sprintf(" id=%d", st.Id))
+		if errB == nil {
+			fail("interleaved", "a concurrent request for a busy cursor id was served", "served", "refused")
+			if b != nil && b != a {
+				vh.Recover(func() { p.Release(ctx, b) })
+			}
+		}
+		// A goes on reading: from where?
+		if got := a2.State(ctx).Pos; got != posA {
+			fail("interleaved", "a REFUSED concurrent request repositioned the busy cursor: the request in flight continues from the refused request's position (records skipped or delivered twice)", got, posA)
+		}
+		pn := vh.Recover(func() {
+			if stA := p.Release(ctx, a2); stA.Pos != posA {
+				fail("interleaved", "the state returned to request A carries the refused request's position", stA.Pos, posA)
+			}
+		})
+		out := "idle"
+		if pn != "" {
+			out = "panic"
+			fail("panic", "Release panicked: "+pn, pn, "no panic")
+		}
+		add("release", "release 1", out)
 	case "release-in-progress":
 		// request 1 is still inside Release (its commit reads the cursor: the iterator's Get is slow) when request 2
 		// names the same id: it must be refused — the cursor may only become available when its user is done with it
@@ -960,6 +1017,7 @@ func sectionRace() {
 		runRace(raceCase{Kind: "same-uncached-id"}, false)
 		runRace(raceCase{Kind: "distinct-uncached-ids"}, false)
 		runRace(raceCase{Kind: "release-in-progress"}, false)
+		runRace(raceCase{Kind: "refused-other-position"}, false)
 	}
 	res.Done(res.Section("race", "", ""))
 }
